@@ -3,6 +3,7 @@ package main
 import (
 	"fmt"
 	"go/constant"
+	"go/token"
 	"strings"
 
 	"golang.org/x/tools/go/ssa"
@@ -815,4 +816,63 @@ func ruleC02ColumnNameComplete(c *Ctx) {
 		}
 	}
 	c.Check(len(missing) == 0, "c02.column-name-complete", "BuildColumnName", c.P.Pos(f.Pos()), "Name, Qualifier.Name and Qualifier.Qualifier are read", "the column-name builder never reads "+strings.Join(missing, ", ")+": that component of a dotted reference is dropped and another column is read")
+}
+
+func init() {
+	register("C02", ruleC02ItemAlways)
+	register("C20", ruleC02ItemAlways)
+	register("C14", ruleC02ItemAlways)
+}
+
+// ruleC02ItemAlways: every item of the select list is evaluated, in its place, for every row.
+func ruleC02ItemAlways(c *Ctx) {
+	c.Doc("c02.item-always-evaluated", "projection (SelectExpr): inside the loop over the select items, the evaluation of an aliased item's expression is reached on every round that finds such an item — the only conditions in front of it are the arms of the type switch over the item: an item that is skipped because \"a later one overwrites the column anyway\" loses its side effects (a SETVAR write, an ASYNC launch, a RAISE) and the order of evaluation C20 and C14 rely on")
+	f := c.theFunc("projection", "*sqlparser.SelectExprs", "SelectExpr")
+	if f == nil {
+		c.Unknown("c02.item-always-evaluated", "SelectExpr", "-", "anchor lost")
+		return
+	}
+	var lp *loopInfo
+	for _, l := range rangeLoops(f) {
+		if t := NewTB().Of(l.over); t.Op == "field" && t.Name == "Exprs" {
+			lp = l
+		}
+	}
+	if lp == nil {
+		c.Unknown("c02.item-always-evaluated", c.P.funcKey(f), c.P.Pos(f.Pos()), "anchor lost: no loop over the select items")
+		return
+	}
+	n := 0
+	deepInstrs(f, func(g *ssa.Function, _ *TB, b *ssa.BasicBlock, in ssa.Instruction) {
+		call, ok := in.(*ssa.Call)
+		if !ok || g != f || call.Common().StaticCallee() == nil || call.Common().StaticCallee().Name() != "Expr" || !inNaturalLoop(lp.header, b) {
+			return
+		}
+		n++
+		bad := ""
+		for _, fc := range factsAt(b) {
+			cond := fc.cond
+			for {
+				u, isU := cond.(*ssa.UnOp)
+				if !isU || u.Op != token.NOT {
+					break
+				}
+				cond = u.X
+			}
+			if ex, isEx := cond.(*ssa.Extract); isEx {
+				if _, isTA := ex.Tuple.(*ssa.TypeAssert); isTA {
+					continue
+				}
+			}
+			ci, isI := cond.(ssa.Instruction)
+			if !isI || ci.Block() == nil || ci.Block() == lp.header || !inNaturalLoop(lp.header, ci.Block()) {
+				continue // the loop's own condition, or something decided before the loop
+			}
+			bad = "the item's expression is evaluated only under the condition " + NewTB().Of(fc.cond).String() + ": an item that fails it is skipped together with its side effects"
+		}
+		c.Check(bad == "", "c02.item-always-evaluated", fmt.Sprintf("%s/item#%d", c.P.funcKey(f), n), c.P.Pos(call.Pos()), "reached on every round that finds an aliased item", bad)
+	})
+	if n == 0 {
+		c.Unknown("c02.item-always-evaluated", c.P.funcKey(f), c.P.Pos(f.Pos()), "anchor lost: the loop over the select items does not call the expression evaluator")
+	}
 }
